@@ -154,14 +154,16 @@ def run(ctx):
     ctx.control('pre-order traversal violates LogIsPostOrder', rc.violated == 'LogIsPostOrder', str(rc.violated))
     plans = [('k', pc.K_ATOMS, 3 if quick else 4), ('default', pc.D_ATOMS, 2 if quick else 3)]
     all_items = []
+    pc.SOUP_VOLUME.update(num=100 if quick else 1000, nseeds=8 if quick else 16, seed=ctx.seed)
+    plans += [('k', pc.K_ATOMS, pc.SOUP + (9 if quick else 14)), ('default', pc.D_ATOMS, pc.SOUP + (9 if quick else 14))]
     for cname, atoms, K in plans:
         jobs = pc.export_jobs(atoms, cname, K, ['strict', 'tolerant'], ['NoNonterm'], timeout=6000)
-        m = common.run_shards(ctx, ('harness.c19', 'VisitConsumer'), jobs, what='ParseRun %s K=%d (documents for visitor logs)' % (cname, K))
+        m = common.run_shards(ctx, ('harness.c19', 'VisitConsumer'), jobs, what='ParseRun %s %s (documents for visitor logs)' % (cname, pc.kdesc(K)))
         ctx.add_merged(m, validated=False)
         items = []
         for ex in m['extra']:
             items.extend(ex.get('traces', []))
-        ctx.log('%s K=%d: %d strings, %d visitor logs, %d callbacks' % (cname, K, m['n'], len(items), m['counters'].get('events', 0)))
+        ctx.log('%s %s: %d strings, %d visitor logs, %d callbacks' % (cname, pc.kdesc(K), m['n'], len(items), m['counters'].get('events', 0)))
         flags, diags = common.validate_traces(ctx, 'Visit', [it[1] for it in items], what='C->S Visit acceptor', chunk=40000)
         ctx.traces_validated += len(items)
         ctx.counters['logs_validated'] += len(items)
